@@ -30,6 +30,11 @@ def run(ctx, chk):
                 continue
             mt = c.sfields["message_type"]
             pstart = c.roles["payload"].start
+            # the byte the type is taken from must exist: an accepted sentence has a payload of at
+            # least one character (otherwise the 'first payload character' is the next delimiter)
+            pe = c.roles["payload"]
+            chk.ob(pe.lo is not None and pe.lo >= 1, "C19/empty-payload/%s" % (pe.lo,),
+                   "a sentence with an empty payload field is accepted [%s] and reports a message type although it has no first payload character" % cfg)
             desc = None
             if isinstance(mt, VInt):
                 l = lin_of(c.path.st, mt)
